@@ -389,7 +389,9 @@ fn varlink_bridge(
                     // a side that hangs up ends the bridge, it is not an error
                     if let Err(ref e) = r {
                         if let Some(io_e) = e.downcast_ref::<std::io::Error>() {
-                            if io_e.kind() == std::io::ErrorKind::BrokenPipe {
+                            if io_e.kind() == std::io::ErrorKind::BrokenPipe
+                                || io_e.kind() == std::io::ErrorKind::ConnectionReset
+                            {
                                 return Ok(());
                             }
                         }
@@ -408,7 +410,10 @@ fn varlink_bridge(
 
     if let Err(ref e) = r {
         if let Some(io_e) = e.downcast_ref::<std::io::Error>() {
-            if io_e.kind() == std::io::ErrorKind::BrokenPipe {
+            // a peer that hangs up while data it never read is still queued shows up as a reset
+            if io_e.kind() == std::io::ErrorKind::BrokenPipe
+                || io_e.kind() == std::io::ErrorKind::ConnectionReset
+            {
                 return Ok(());
             }
         }
